@@ -12,6 +12,8 @@
 //	    executes TLC behaviours of Stream.tla on a real EventsStream.
 //	eventstream sstress <publishers> <events> <drainers> <histories> <seed> <hist.ndjson>
 //	    free-running publishers / drainers / subscribe-unsubscribe on a real EventsStream.
+//	eventstream schurn <togglers> <rounds> <iters> <keep> <seed> <hist.ndjson> -
+//	    free-running subscribe/unsubscribe churn of several subscribers on one topic around a probe subscriber.
 //
 // Assumption of the step-wise replays: runtime.GOMAXPROCS(1) and GC off, so that sync.Pool (if the
 // tree under test recycles queue nodes) behaves as its one-P model (private slot, LIFO shared list).
@@ -242,6 +244,21 @@ func main() {
 			fatal(err)
 		}
 		fmt.Printf("{\"histories\":%d,\"events\":%d}\n", n, ev)
+	case "schurn":
+		if len(os.Args) != 9 {
+			fatal("usage: eventstream schurn <togglers> <rounds> <iters> <keep> <seed> <hist> <unused>")
+		}
+		hw, err := vtrace.Create(os.Args[7])
+		if err != nil {
+			fatal(err)
+		}
+		seed, _ := strconv.ParseInt(os.Args[6], 10, 64)
+		st := schurn(atoi(os.Args[2]), atoi(os.Args[3]), atoi(os.Args[4]), atoi(os.Args[5]), seed, hw)
+		if err := hw.Close(); err != nil {
+			fatal(err)
+		}
+		out, _ := json.Marshal(st)
+		fmt.Println(string(out))
 	default:
 		fatal("unknown subcommand", os.Args[1])
 	}
